@@ -1,6 +1,6 @@
 """C18 The IMUL_RCP reciprocal is exact for every divisor."""
 import astq
-from rules import decode, genreset, jit, rv64, sshash, x86hsem
+from rules import decode, genreset, jit, rtpreserve, rv64, sshash, x86hsem
 
 LEVEL = 'other'
 TECHNIQUE = ('control-dependence check of the no-op guard in every engine (decoder path enumeration) + definition check of the power-of-two predicate; IR effect check of the reciprocal routine'
@@ -48,6 +48,11 @@ def rule_rcp_pure(ctx, R):
     if n == 0:
         raise AnalysisBroken('RCP-PURE: randomx_reciprocal not defined in the IR')
 
+CLAIM += (' randomx_reciprocal is evaluated with fixed-width arithmetic under the LP64 and the LLP64 data model over a grid of divisors (RCP-EVAL); the A64 IMUL_RCP handler multiplies by the register that the prologue loads from the literal slot the handler wrote (A64-RCPLIT); the vector dataset generator pages its literals consistently (RVV-SS-RCPPOOL).')
+EXPLANATION += ' RCP-EVAL (K0 + K5), A64-RCPLIT, RVV-SS-RCPPOOL.'
+
+TECHNIQUE += '; fixed-width evaluation of the reciprocal under two data models (LP64 parse and LLP64 cross parse); agreement of the A64 literal-register table with the prologue of the assembled runtime'
+
 
 def run(ctx, R):
     F = astq.Facts(ctx, 'K0')
@@ -69,6 +74,7 @@ def run(ctx, R):
     genreset.rule_gen_reset(ctx, R, 'rv64')
     rv64.rule_rvv_rcp(ctx, R, F)
     x86hsem.rule_hsem(ctx, R)
+    rtpreserve.rule_a64_rcplit(ctx, R)
 
 
 def rule_rcp_eval(ctx, R):
